@@ -80,6 +80,13 @@ MACRO_TEXTS = [
     "macro w($n) {\n    while ($n < 3) {\n        a();\n    }\n    switch ($n) {\n        case 1:\n            b();\n            break;\n        default:\n            c();\n    }\n}\ncoro C {\n    ~w($Y);\n    end;\n}\n",
 ]
 SSBS_TEXT = "//?: is-ssb-script: true\ndef 0 {\n    a(1, 'x');\n    @l;\n    Jump(@l);\n}\n"
+# SsbScript sources whose label names overlap (the listener numbers labels per compilation: an earlier source that used
+# @label_0 must not decide what @label_0 / @label_1 mean in a later one)
+SSBS_TEXTS = [
+    "//?: is-ssb-script: true\ndef 0 {\n    @label_0;\n    a(1);\n    BranchDebug(1, @label_0);\n    Return();\n}\n",
+    "//?: is-ssb-script: true\ndef 0 {\n    BranchDebug(1, @label_1);\n    @label_0;\n    a(2);\n    Jump(@label_0);\n    @label_1;\n    b();\n    Return();\n}\n",
+    "//?: is-ssb-script: true\ndef 0 {\n    Jump(@z);\n    @label_0;\n    x();\n    @z;\n    End();\n}\ndef 1 for_actor(2) {\n    Call(@label_0);\n    BranchEdit(0, @label_1);\n    y();\n    @label_1;\n    Hold();\n}\n",
+]
 BAD_TEXTS = [
     "def 0 {\n    a(;\n}\n",
     "def 0 {\n    ~nope(1);\n    end;\n}\n",
@@ -330,7 +337,7 @@ def build_pools(run: core.Run, jobs: int, n_prog: int, light: bool = False) -> t
             Cfg(max_depth=2, max_stmts=3, max_routines=3, flat=True), Cfg(max_depth=1, max_stmts=4, max_routines=2, p_halt=0.2)]
     progs = escommon.gen_programs(r, n_prog, cfgs)
     texts = [{"kind": "compile", "text": p["text"], "lookup": []} for p in progs if len(p["text"]) < 6000]
-    texts += [{"kind": "compile", "text": t, "lookup": []} for t in MACRO_TEXTS] + [{"kind": "compile", "text": SSBS_TEXT, "lookup": []}]
+    texts += [{"kind": "compile", "text": t, "lookup": []} for t in MACRO_TEXTS] + [{"kind": "compile", "text": t, "lookup": []} for t in [SSBS_TEXT] + SSBS_TEXTS]
     texts += fixture_texts()
     texts += [{"kind": "compile", "text": t, "lookup": []} for t in COLD_TEXTS]
     bad = [{"kind": "compile", "text": t, "lookup": []} for t in BAD_TEXTS]
